@@ -47,6 +47,8 @@ type inst struct {
 	h1    *http.Client
 }
 
+var keepClients sync.Map
+
 func freePort(udp bool) int {
 	if udp {
 		c, err := net.ListenUDP("udp", &net.UDPAddr{IP: net.IPv4(127, 0, 0, 1)})
@@ -744,6 +746,14 @@ func (in *inst) roundTrip(lst, src string, w []byte, wait time.Duration, hdr map
 			tr.ForceAttemptHTTP2 = true
 		}
 		cl := &http.Client{Transport: tr, Timeout: wait}
+		if hdr["keep"] != "" { // a reverse proxy in front of the listener: few long-lived connections
+			v, _ := keepClients.LoadOrStore(in.name+"/"+lst, func() *http.Client {
+				tr.DisableKeepAlives = false
+				tr.MaxIdleConnsPerHost = 8
+				return &http.Client{Transport: tr, Timeout: wait}
+			}())
+			cl = v.(*http.Client)
+		}
 		var req *http.Request
 		if hdr["method"] == "GET" {
 			req, _ = http.NewRequest("GET", fmt.Sprintf("%s://%s/dns-query?dns=%s", scheme, addr, base64.RawURLEncoding.EncodeToString(w)), nil)
@@ -753,7 +763,7 @@ func (in *inst) roundTrip(lst, src string, w []byte, wait time.Duration, hdr map
 			req.Header.Set("Content-Type", "application/dns-message")
 		}
 		for k, v := range hdr {
-			if k != "method" {
+			if k != "method" && k != "keep" {
 				req.Header.Set(k, v)
 			}
 		}
